@@ -102,6 +102,23 @@ def parse_rats(tok):
 # ----------------------------------------------------------------------------------------
 # Lean side
 # ----------------------------------------------------------------------------------------
+class lean_lock:
+    """serialise every use of the lake project (build, audit, leanchecker) across concurrently running checks: two `lake build`s or an
+    audit elaborating while another check rebuilds its imports would otherwise fail spuriously"""
+
+    def __enter__(self):
+        import fcntl
+        os.makedirs(os.path.join(LEAN_DIR, '.lake'), exist_ok=True)
+        self.f = open(os.path.join(LEAN_DIR, '.lake', 'verif.lock'), 'w')
+        fcntl.flock(self.f, fcntl.LOCK_EX)
+        return self
+
+    def __exit__(self, *a):
+        import fcntl
+        fcntl.flock(self.f, fcntl.LOCK_UN)
+        self.f.close()
+
+
 def lean_build(log, prop_files=None):
     """(Re)build the property's own modules (with everything they import) + the driver. Returns (ok, output).
     Only the property's modules: a theorem of another property that no longer checks (e.g. C20's table regenerated from a tree
@@ -113,7 +130,8 @@ def lean_build(log, prop_files=None):
     else:
         targets = ['Knee']
     log['lean_build_targets'] = targets + ['driver']
-    p = subprocess.run(['lake', 'build'] + targets + ['driver'], cwd=LEAN_DIR, capture_output=True, text=True)
+    with lean_lock():
+        p = subprocess.run(['lake', 'build'] + targets + ['driver'], cwd=LEAN_DIR, capture_output=True, text=True)
     log['lean_build_s'] = round(time.time() - t0, 2)
     return p.returncode == 0, (p.stdout + p.stderr)
 
@@ -147,7 +165,8 @@ def lean_audit(prop_id, prop_file):
             f.write(f'import {pf[:-5].replace("/", ".")}\n')
         for n in names:
             f.write(f'#print axioms {n}\n')
-    p = subprocess.run(['lake', 'env', 'lean', af], cwd=LEAN_DIR, capture_output=True, text=True)
+    with lean_lock():
+        p = subprocess.run(['lake', 'env', 'lean', af], cwd=LEAN_DIR, capture_output=True, text=True)
     out = p.stdout + p.stderr
     problems = []
     axioms = {}
@@ -198,7 +217,8 @@ def lean_recheck(prop_file):
     """thorough tier: replay the compiled declarations of the property's modules through leanchecker (independent kernel re-check)"""
     mods = knee_modules(prop_file)
     t0 = time.time()
-    p = subprocess.run(['lake', 'env', 'leanchecker'] + mods, cwd=LEAN_DIR, capture_output=True, text=True)
+    with lean_lock():
+        p = subprocess.run(['lake', 'env', 'leanchecker'] + mods, cwd=LEAN_DIR, capture_output=True, text=True)
     return dict(modules=mods, ok=p.returncode == 0, seconds=round(time.time() - t0, 1), output=(p.stdout + p.stderr)[-500:])
 
 
@@ -688,7 +708,7 @@ def run_property(mod, prop_id, tier, seed, replay=None):
     nviol = 0
     if unlisted:
         # smallest case first
-        unlisted.sort(key=lambda f: len(json.dumps(f.case, default=str)))
+        unlisted.sort(key=lambda f: (isinstance(f.case, dict) and f.case.get('exhibited') is False, len(json.dumps(f.case, default=str))))
         f = unlisted[0]
         path = write_replay(prop_id, f, dict(seed=seed, tier=tier, other_failing_cases=len(unlisted) - 1,
                                              related=[o.to_json() for o in other[:3]]))
